@@ -25,6 +25,8 @@ what is shared is therefore part of the model:
                          `rev_v`, and, when an order function is given that is velocity dependent
                          and `rev_v`, re-assigns `order` of every frame of the new path.
   * `paste_paths`        re-uses the references of both segments (no copy at all).
+                         Its limit computation is the repaired one (fix 960b399); `Variant.asIs`
+                         is the code before it (`max(None, int)` → TypeError), see `pasteMaxlenV`.
 
 Extension pass: `Path.__eq__` / `__ne__` (`Path.eq`, frames compared by identity), `get_shooting_point`
 (`shootRequest`, `shootingPoint`: the draw is an argument), `update_energies` (`updateEnergies`),
@@ -237,15 +239,29 @@ def appendAll : Path → List Nat → Path × Bool
     let (np1, ok) := np.append r
     if ok then appendAll np1 rs else (np1, false)
 
-/-- the `maxlen` of the pasted path. `max(None, int)` raises TypeError in Python 3. -/
-def pasteMaxlen (bm fm : Option Int) (maxlen : Option Int) : Except Err (Option Int) :=
+/-- the two versions of the limit computation of `paste_paths`: `asIs` = before fix 960b399
+    (`max(None, int)` raises TypeError in Python 3), `repaired` = the current code ("in case one is None,
+    the other will be picked") -/
+inductive Variant | asIs | repaired
+deriving Repr, DecidableEq
+
+/-- the `maxlen` of the pasted path; the variants differ exactly where one of the two limits is `None`
+    and no explicit `maxlen` is given. -/
+def pasteMaxlenV (var : Variant) (bm fm : Option Int) (maxlen : Option Int) : Except Err (Option Int) :=
   match maxlen with
   | some m => .ok (some m)
   | none =>
     if bm = fm then .ok bm
     else match bm, fm with
       | some a, some b => .ok (some (if b > a then b else a))   -- Python max(a, b)
-      | _, _ => .error .type
+      | none, fm' =>                                             -- `if path_back.maxlen is None: maxlen = path_forw.maxlen`
+        (match var with | .asIs => .error .type | .repaired => .ok fm')
+      | bm', none =>                                             -- `elif path_forw.maxlen is None: maxlen = path_back.maxlen`
+        (match var with | .asIs => .error .type | .repaired => .ok bm')
+
+/-- the limit computation of the current code -/
+def pasteMaxlen (bm fm : Option Int) (maxlen : Option Int) : Except Err (Option Int) :=
+  pasteMaxlenV .repaired bm fm maxlen
 
 /-- `paste_paths(path_back, path_forw, overlap, maxlen)`: no System is copied. -/
 def paste (back forw : Path) (overlap : Bool) (maxlen : Option Int) : Except Err Path :=
@@ -257,6 +273,18 @@ def paste (back forw : Path) (overlap : Bool) (maxlen : Option Int) : Except Err
     if !ok then .ok np1
     else
       -- `first and overlap` skips the first forward point
+      let fw := if overlap then forw.frames.drop 1 else forw.frames
+      .ok (appendAll np1 fw).1
+
+/-- `paste_paths` with the limit computation of the given variant (`pasteV .repaired = paste`) -/
+def pasteV (var : Variant) (back forw : Path) (overlap : Bool) (maxlen : Option Int) : Except Err Path :=
+  match pasteMaxlenV var back.maxlen forw.maxlen maxlen with
+  | .error e => .error e
+  | .ok ml =>
+    let np0 := Path.empty ml (back.timeOrigin - (back.frames.length : Int) + 1)
+    let (np1, ok) := appendAll np0 back.frames.reverse
+    if !ok then .ok np1
+    else
       let fw := if overlap then forw.frames.drop 1 else forw.frames
       .ok (appendAll np1 fw).1
 
